@@ -2792,6 +2792,10 @@ func (p *Parser) evaluateInput(ctx context) (Expression, error) {
 
 		if len(expressions) > 0 {
 			expr = expressions[0]
+
+			if !expr.ValueType().IsString() {
+				return nil, p.expectedError("prompt string", keywordToken)
+			}
 		}
 		return Input{
 			prompt: expr,
